@@ -166,6 +166,14 @@ def c02(tier):
             len(unavailable), json.dumps(unavailable[0]["detail"])[:600]))
     nmon = len(subs)
     res.extra["monitored_subjects"] = nmon
+    if tier == "thorough":
+        # the same monitored drivers on OPTIMISED subjects (overflow wraps instead of panicking only if checks were compiled out;
+        # here they stay on, but inlining/const-propagation of the generated code differs from the debug build)
+        osubs, _ = ub_subjects("quick", e4.DERIVE_USE)
+        for s_ in osubs:
+            s_.sid = "o" + s_.sid[1:]
+        explore(res, "%s/c02opt" % tier, osubs, derive_dep=e4.DEPS, opt=True)
+        res.extra["optimised_monitored_subjects"] = len(osubs)
     msubs = [] if os.environ.get("VERIF_NO_MIRI") else miri_run(res, tier)
     from props_e3 import family_desc
     res.family = family_desc(decls)
